@@ -609,6 +609,13 @@ func doCheck(id, tier string) int {
 	}
 	byPkg := map[string][]*cand{}
 	for _, r := range reports {
+		// differential samples: models of clean completed paths, which must also run clean natively
+		for k, a := range r.Res.DiffSamples {
+			b, _ := json.MarshalIndent(a, "", " ")
+			file := filepath.Join(workDir, fmt.Sprintf("diff-%s-%d.json", r.H.Func, k))
+			os.WriteFile(file, b, 0o644)
+			byPkg[r.H.Pkg] = append(byPkg[r.H.Pkg], &cand{&interp.Violation{Harness: r.H.Func, Label: "differential sample", Kind: "diff", Assign: a}, r.H, file})
+		}
 		for _, v := range r.Res.Violations {
 			b, _ := json.MarshalIndent(v.Assign, "", " ")
 			sum := sha1.Sum(append(b, []byte(v.Label)...))
@@ -618,6 +625,8 @@ func doCheck(id, tier string) int {
 		}
 	}
 	confirmed := 0
+	diffRuns, diffAgree := 0, 0
+	var diffMismatch []string
 	var hangNotReproduced []string
 	spurious := 0
 	replays := 0
@@ -657,6 +666,25 @@ func doCheck(id, tier string) int {
 		for _, c := range cs {
 			o := outcomes[c.file]
 			replays++
+			if c.v.Kind == "diff" {
+				diffRuns++
+				switch {
+				case o == "ok":
+					diffAgree++
+				case o == "", o == "no-outcome", o == "timeout", strings.Contains(o, "replay diverged"), o == "assume-failed":
+					diffMismatch = append(diffMismatch, fmt.Sprintf("%s: differential sample did not run to completion natively (outcome %q)", c.h.Func, o))
+				default:
+					// the engine found this path clean, the real code does not: keep the input and report it
+					keep := filepath.Join(replayDir, fmt.Sprintf("%s-diff-%s", id, filepath.Base(c.file)))
+					if b, err := os.ReadFile(c.file); err == nil {
+						os.WriteFile(keep, b, 0o644)
+					}
+					confirmed++
+					violLines = append(violLines, fmt.Sprintf("VIOLATION property=%s replay=%s", id, keep))
+					fmt.Fprintf(os.Stderr, "violation: differential sample of %s fails natively although the engine explored its path as clean (native outcome: %s)\n", c.h.Func, o)
+				}
+				continue
+			}
 			reproduced := false
 			switch c.v.Kind {
 			case "assert":
@@ -712,6 +740,7 @@ func doCheck(id, tier string) int {
 		}
 	}
 	inconclusive = append(inconclusive, hangNotReproduced...)
+	inconclusive = append(inconclusive, diffMismatch...)
 	if spurious > 0 {
 		inconclusive = append(inconclusive, fmt.Sprintf("%d candidate counterexample(s) did not reproduce natively (engine imprecision)", spurious))
 	}
@@ -720,7 +749,7 @@ func doCheck(id, tier string) int {
 		fmt.Println("INCONCLUSIVE " + s)
 	}
 
-	writeEvidence(id, tier, seed, reports, confirmed, spurious, replays, knownSeen, inconclusive, time.Since(t0))
+	writeEvidence(id, tier, seed, reports, confirmed, spurious, replays, diffRuns, diffAgree, knownSeen, inconclusive, time.Since(t0))
 
 	for _, l := range violLines {
 		fmt.Println(l)
@@ -733,11 +762,11 @@ func doCheck(id, tier string) int {
 		paths += r.Res.Paths
 		asserts += r.Res.Asserts
 	}
-	fmt.Printf("OK property=%s tier=%s harnesses=%d paths=%d assertions=%d known=%d inconclusive=%d wall=%.1fs\n", id, tier, len(reports), paths, asserts, len(knownSeen), len(inconclusive), time.Since(t0).Seconds())
+	fmt.Printf("OK property=%s tier=%s harnesses=%d paths=%d assertions=%d known=%d inconclusive=%d differential=%d/%d wall=%.1fs\n", id, tier, len(reports), paths, asserts, len(knownSeen), len(inconclusive), diffAgree, diffRuns, time.Since(t0).Seconds())
 	return 0
 }
 
-func writeEvidence(id, tier string, seed int, reports []*harnessReport, confirmed, spurious, replays int, knownSeen map[string]bool, inconclusive []string, wall time.Duration) {
+func writeEvidence(id, tier string, seed int, reports []*harnessReport, confirmed, spurious, replays, diffRuns, diffAgree int, knownSeen map[string]bool, inconclusive []string, wall time.Duration) {
 	type hEv struct {
 		Harness    string         `json:"harness"`
 		Package    string         `json:"package"`
@@ -818,7 +847,9 @@ func writeEvidence(id, tier string, seed int, reports []*harnessReport, confirme
 		"transitions":                   trans,
 		"traces_validated_against_impl": replays,
 		"samples":                       samples,
-		"explanation":                   explanationFor(id) + "bounded symbolic execution of the repository's go/ssa: states = explored paths, transitions = recorded decisions (symbolic branches, shape choices, solver-derived concretisations); every assertion on every path is closed by an SMT query (or is concrete on that path); counterexample candidates are replayed natively",
+		"differential_samples_replayed": diffRuns,
+		"differential_samples_agreeing": diffAgree,
+		"explanation":                   explanationFor(id) + "bounded symbolic execution of the repository's go/ssa: states = explored paths, transitions = recorded decisions (symbolic branches, shape choices, solver-derived concretisations); every assertion on every path is closed by an SMT query (or is concrete on that path); counterexample candidates are replayed natively; models of log-spaced clean completed paths are replayed natively as well (differential validation of the encoding: the native run must be clean too)",
 		"harnesses":                     hev,
 		"functions_encoded":             fnames,
 		"stubs_and_summaries_hit":       snames,
